@@ -46,7 +46,7 @@ func replayInput(family, src string) map[string]string {
 }
 
 func Run(c *core.Ctx) {
-	c.Rule = "inputs of parser.ParseString: every .templ file of the repository, the string literals of parser/v2/*_test.go and the txtar test data (raw and wrapped in a templ body), hand-written probes, their truncations, structure-aware mutations (token insert/delete/duplicate/swap, span delete, delimiter imbalance, byte replace, CRLF conversion, multi-byte text before expressions / in strings / in comment lines, blank lines, indentation), keyword layouts (29 forms - if / else if / for / switch / case / default / call / string, go-code, attribute, bool-attribute, spread and conditional-attribute expressions / templ, css, script headers / go blocks - with a hole after every keyword, operator, comma, semicolon, opening delimiter and before every closing token; each hole filled with each of 22 separators - none, blanks, tab, LF, CRLF, CR, indented continuation lines, block / multi-line / multi-byte / line comments, NBSP - one at a time exhaustively, then several forms per file with random separators behind multi-byte / CRLF prologues, then the blanks of the repository templates replaced), thorough: every truncation and coverage-guided random bytes; distinct non-trivial = distinct inputs (by SHA-1) that parse, generate and gofmt and carry at least one recorded range judged by the extracted predicate, plus distinct inputs rejected with a positioned error"
+	c.Rule = "inputs of parser.ParseString: every .templ file of the repository, the string literals of parser/v2/*_test.go and the txtar test data (raw and wrapped in a templ body), hand-written probes, their truncations, structure-aware mutations (token insert/delete/duplicate/swap, span delete, delimiter imbalance, byte replace, CRLF conversion, multi-byte text before expressions / in strings / in comment lines, blank lines, indentation), keyword layouts (" + strconv.Itoa(len(layoutForms)) + " forms - if / else if / for / switch / case / default / call / string, go-code, attribute, bool-attribute, spread, children and conditional-attribute expressions / element tags, constant attributes / templ, css, script headers / go blocks - with a hole on both sides of every token: after every keyword, operator, comma, semicolon, opening delimiter and in front of every operator, suffix operator (`...`, `++`), comma, semicolon, colon, closing brace / parenthesis / tag end; each hole filled with each of " + strconv.Itoa(len(layoutSeps)) + " separators - none, blanks, tab, LF, CRLF, CR, indented continuation lines, block / multi-line / multi-byte / line comments, NBSP - one at a time exhaustively, then several forms per file with random separators behind multi-byte / CRLF prologues, then the blank after a keyword / operator / delimiter and the blanks (or nothing) in front of a closing / suffix token of the repository templates replaced), thorough: every truncation and coverage-guided random bytes; distinct non-trivial = distinct inputs (by SHA-1) that parse, generate and gofmt and carry at least one recorded range judged by the extracted predicate, plus distinct inputs rejected with a positioned error"
 	c.Trusted = append(c.Trusted,
 		"specification spec/PosOf.v (pos_of, range_ok, name_range_ok) - what a faithful position is",
 		"extraction: ExtrOcamlBasic only; ocaml/driver.ml (hex line protocol)",
@@ -197,6 +197,43 @@ func inputTie(c *core.Ctx) {
 		}
 	}
 	c.Oblige("correspondence", "parse.Input: extracted pos_of agrees with PositionAt's answer at every index of every generated string", propOK, "")
+	// numbers no faithful position can have (a wrapped-around uint32 column, a negative index) reach the extracted
+	// predicate cut off at len(src)+1 (X06.numc, C06_checked_predicates_saturate): the driver must answer, and answer "false"
+	{
+		src := "ab\ncd"
+		good := []string{"3", "1", "0", "5", "1", "2"} // "cd"
+		var sreqs []drv.Req
+		var swant []string
+		mk := func(kind, text string, nums []string) {
+			args := [][]byte{[]byte(src), []byte(kind), []byte(text)}
+			for _, n := range nums {
+				args = append(args, []byte(n))
+			}
+			sreqs = append(sreqs, drv.Req{Fn: "check", Args: args})
+		}
+		for _, kind := range []string{"E", "N", "P"} {
+			mk(kind, "cd", good)
+			swant = append(swant, "1")
+			for k := range good {
+				for _, bad := range []string{"4294967295", "4294967294", "18446744073709551615", "-1", "-9223372036854775808", "6", "7", ""} {
+					nums := append([]string(nil), good...)
+					nums[k] = bad
+					mk(kind, "cd", nums)
+					swant = append(swant, "0")
+				}
+			}
+		}
+		satOK := true
+		res := c.Model(sreqs)
+		for i, r := range res {
+			c.Count("")
+			if len(r) != 1 || string(r[0]) != swant[i] {
+				satOK = false
+			}
+		}
+		c.Hist("extracted predicate on out-of-range numbers (wrapped uint32, negative int64, beyond the source)")
+		c.Oblige("side-condition", "the extracted predicates answer (and answer false) on recorded numbers outside the source: wrapped-around uint32, negative int64, len+1, len+2, empty", satOK && len(res) == len(swant), fmt.Sprintf("%d probes", len(swant)))
+	}
 	c.Sample(map[string]string{"input": strconv.Quote("a\r\né\nb"), "PositionAt(5)": fmt.Sprint(parse.NewInput("a\r\né\nb").PositionAt(5))})
 }
 
